@@ -218,6 +218,13 @@ impl Monitor for C04 {
                     t.push(b'$');
                     ("directed:huge-rates", t, vec![65535, 65536, 65537, 65600, 1 << 20, 1 << 31, u32::MAX])
                 }
+                8 if !ctx.tiny() => {
+                    // rows, counts and checkpoints beyond 2^16
+                    let mut t: Vec<u8> = (0..150_000).map(|_| *rng.pick(b"ACGTN")).collect();
+                    t.push(b'$');
+                    ctx.count("texts_longer_than_65536", 1);
+                    ("directed:large-text", t, vec![1, 64, 65, 4096, 65_536, 65_537, 300_000])
+                }
                 _ => {
                     let s = pick_sentinel(rng);
                     let n = rng.range(70, big);
